@@ -103,7 +103,9 @@ def classify(ev, rows):
             if op in ("mul", "bitand", "bitor", "and", "or") and any(is_const(a) for a in x["a"]) and not all(is_const(a) for a in x["a"]):
                 for k in (0, 1):
                     c, o = vals[k], vals[1 - k]
-                    if not is_const(x["a"][k]):
+                    # (& and | also skip the other operand at run time when the FIELD holds the
+                    # absorbing value: ast Nary.Eval)
+                    if not is_const(x["a"][k]) and op not in ("bitand", "bitor"):
                         continue
                     absorbing = (op in ("and", "or") and c["t"] == "bool" and c["b"] == (op == "or")) or \
                         (op in ("mul", "bitand") and num(c) == 0) or (op == "bitor" and num(c) == 4294967295)
